@@ -149,6 +149,7 @@ def m_from_slice_world(I, st, fr, callee, args, dty, dest, ret_bb):
 def m_meta_get(I, st, fr, callee, args, dty, dest, ret_bb):
     m = deref(I, st, args[0]); k = deref(I, st, args[1])
     if k.d.get('s') is not None: key = k.d['s']
+    elif all(isinstance(p, str) for p in k.d['pieces']): key = ''.join(k.d['pieces'])
     else: key = tuple(str(p) for p in k.d['pieces'])
     st.events.append(('meta.get', m.d['did'], key))
     slot = m.d['slots'].get(key)
